@@ -34,7 +34,7 @@ def cfg_text(spec, c, invariants=(), props=(), constraint=None, view=None):
     lines = ["SPECIFICATION %s" % spec, "CONSTANTS",
              "  NP = %d" % c.get("np", 2), "  BudSet = %s" % tset(c.get("bud", [1])),
              "  Depth = %d" % c.get("depth", 0), '  CacheRule = "%s"' % c.get("cache", "none"),
-             "  AddSet = %s" % tset(c.get("add", ALLC)), "  GetSet = %s" % tset(c.get("get", ["I1", "I2", "P"])),
+             "  AddSet = %s" % tset(c.get("add", ALLC)), "  GetSet = %s" % tset(c.get("get", ["I1", "I2", "P", "D1", "D0"])),
              "  PatSets = %s" % tset([tuple(p) for p in c.get("pats", [[1]])]),
              "  MaxLines = %d" % c.get("maxlines", 0), "  CBudSet = %s" % tset(c.get("cbud", [0])),
              "  PathSet = %s" % tset(c.get("paths", ["archive"]))]
@@ -63,13 +63,14 @@ PLAN = dict(
         hist=[dict(np=2, bud=[1], depth=8, cache="all", pats=[[1], [2], [0]]),
               dict(np=2, bud=[1, 2], depth=4, cache="all", pats=[[1], [2], [1, 2]])],
         stale=dict(np=2, bud=[1], depth=5, cache="self", pats=[[1], [2], [0]]),
-        emit=dict(np=2, bud=[1], depth=3, cache="none", pats=[[1], [2]], get=["I1", "I2", "P", "I3"]),
+        emit=dict(np=2, bud=[1], depth=3, cache="none", pats=[[1], [2]], get=["I1", "I2", "P", "I3", "D1", "D0"]),
         content=[dict(np=2, maxlines=5, cbud=[0, 1, 2, INF], paths=MPATHS),
                  dict(np=3, maxlines=3, cbud=[0, 1, 2, INF], paths=MPATHS)],
         nsim=40000, hist_cap=50000, nrand_hist=12000, content_cap=16000, nrand_content=5000, tests_cases=1500,
         grep_every=2, selftest=80),
 )
-SIM = dict(np=3, bud=[0, 1, 2, INF], depth=8, cache="all", get=["I1", "I2", "P", "I3", "P2"],
+SIM = dict(np=3, bud=[0, 1, 2, INF], depth=8, cache="all", get=["I1", "I2", "P", "I3", "P2", "D1", "D0", "D0"],
+           add=ALLC + ["D1"],
            pats=[[1], [2], [3], [1, 2], [2, 3], [0], [0, 1], []])
 
 ASSUMPTIONS = [
@@ -103,9 +104,9 @@ def random_hist(rng, i):
             if r < 0.06:
                 pats = sorted(set(pats + [0]))
             mx = rng.choice([1, 2, 3, 7, INF, INF]) if rng.random() > 0.06 else 0
-            hist.append(dict(op="add", k=rng.choice(ALLC), pats=pats, mx=mx))
+            hist.append(dict(op="add", k=rng.choice(ALLC + ALLC + ["D1", "D0"]), pats=pats, mx=mx))
         else:
-            hist.append(dict(op="get", k=rng.choice(["I1", "I1", "I2", "P", "I3", "P2"]), pats=[], mx=0))
+            hist.append(dict(op="get", k=rng.choice(["I1", "I1", "I2", "P", "I3", "P2", "D1", "D0", "D0"]), pats=[], mx=0))
     return dict(id="randh#%d" % i, g=g, hist=hist)
 
 
@@ -152,7 +153,7 @@ def corrupt(traces, rng, want):
         mode = len(out) % 4
         c = copy.deepcopy(t)
         if mode == 0 and t["kind"] == "hist":
-            gets = [e for e in c["events"] if e["ev"] == "get" and e["ret"] and e["c"] in ("I1", "I2", "P")]
+            gets = [e for e in c["events"] if e["ev"] == "get" and e["ret"] and e["c"] in ("I1", "I2", "P", "D1", "D0")]
             if not gets:
                 continue
             pos = [i for i, e in enumerate(c["events"]) if e is gets[0]][0]
@@ -206,6 +207,8 @@ def run(prop, tier):
              dict(workers=w), True) for i, c in enumerate(plan["hist"])]
     jobs += [
         ("stale", "Filters", wr("stale.cfg", cfg_text("SpecHist", plan["stale"], HIST_INV)), dict(workers=2), False),
+        ("direct", "Filters", wr("direct.cfg", cfg_text("SpecHist", dict(plan["stale"], cache="direct"), HIST_INV)),
+         dict(workers=2), False),
         ("emit", "FiltersMC", wr("emit.cfg", cfg_text("SpecH", plan["emit"], HIST_INV, constraint="EmitHist")),
          dict(workers=2, raw_cases=True, coverage=True), True),
         ("sim", "FiltersMC", wr("sim.cfg", cfg_text("SpecS", SIM, HIST_INV, constraint="EmitHist")),
@@ -227,20 +230,27 @@ def run(prop, tier):
     with concurrent.futures.ThreadPoolExecutor(max_workers=4) as ex:
         for name, r in ex.map(one, jobs):
             res[name] = r
-    # the stale-cache design must be refuted by TLC at model level (this is where D4 shows as a counterexample)
+    # partial cache invalidation must be refuted by TLC at model level: "self" = only the component a filter is
+    # stored on (defect D4 as found), "direct" = that component and its direct dependencies (not enough either:
+    # a datasource two levels below keeps its stale entry)
+    cex_len = {}
+    for rule in ("stale", "direct"):
+        st = res[rule]
+        if st.violation != "LookupIsUnionInv":
+            raise lib.MachineryError("the model with cache rule %r was expected to violate LookupIsUnionInv; TLC says "
+                                     "violation=%s error=%s" % (rule, st.violation, st.error))
+        cex_len[rule] = max(0, len([l for l in st.out.splitlines() if l.startswith("State ")]) - 1)
     st = res["stale"]
-    if st.violation != "LookupIsUnionInv":
-        raise lib.MachineryError("the model with the per-component cache rule was expected to violate "
-                                 "LookupIsUnionInv; TLC says violation=%s error=%s" % (st.violation, st.error))
-    cex = [l for l in st.out.splitlines() if l.startswith("State ")]
-    print("model: cache invalidation rule 'self' (filters.py:93-94) refuted by TLC: LookupIsUnion violated after "
-          "%d steps; rule 'all' satisfies it on %d states" % (max(0, len(cex) - 1), res["hist0"].distinct))
+    cex = ["x"] * (cex_len["stale"] + 1)
+    print("model: cache invalidation rules 'self' and 'direct' (component + direct dependencies) refuted by TLC: "
+          "LookupIsUnion violated after %d / %d steps; rule 'all' satisfies it on %d states"
+          % (cex_len["stale"], cex_len["direct"], res["hist0"].distinct))
     for mod_name, acts in (("emit", ("AddOne", "GetOne")), ("content0", ("StartC", "KeepLineC", "FinishC"))):
         for a in acts:
             if not res[mod_name].coverage.get(a):
                 raise lib.MachineryError("vacuity: action %s never taken in %s (%s)"
                                          % (a, mod_name, res[mod_name].coverage))
-    models = [res[j[0]] for j in jobs if j[0] != "stale"]
+    models = [res[j[0]] for j in jobs if j[0] not in ("stale", "direct")]
 
     # ---- cases ----
     hcases, seen = [], set()
@@ -407,8 +417,10 @@ def run(prop, tier):
                    contents_replayed=len(ccases), host_grep_runs=grep_runs, grep_semantics_cross_checked=grep_checked,
                    contents_with_leading_dash_first=dash, selftest_corrupted_rejected=len(bad),
                    paths=PATHS + ["host-cmd-write", "tests-inputdata", "tests-context-wrap"],
-                   stale_cache_model=dict(cache_rule="self", violated=st.violation, steps=max(0, len(cex) - 1),
+                   stale_cache_model=dict(cache_rule="self", violated=st.violation, steps=cex_len["stale"],
                                           states=st.distinct),
+                   direct_deps_cache_model=dict(cache_rule="direct", violated=res["direct"].violation,
+                                                steps=cex_len["direct"], states=res["direct"].distinct),
                    invariants_checked_on_model=HIST_INV + ["LookupIsUnion"] + CONTENT_INV, exhaustive=False))
     return verdict.finish(ev)
 
